@@ -76,6 +76,8 @@ def cases(ctx):
             kw['missing'] = rng.choice(pool)
         if nf > 1 and rng.random() < 0.3:
             kw[rng.choice(['include', 'exclude'])] = rng.choice([rng.choice(hdr), tuple(rng.sample(hdr, rng.randint(1, nf)))])
+            if rng.random() < 0.2:
+                kw['include'], kw['exclude'] = rng.choice(hdr), rng.choice(hdr)      # both given: exclude overrides include
         if rng.random() < 0.25:
             kw['presorted'] = True
         if rng.random() < 0.25:
